@@ -151,7 +151,12 @@ def _run_sharded(argv, cases, timeout=3000):
         out[i::n] = r[:len(shards[i])]
     return out
 
+_release_built = False
 def run_impl(family, cases, release=False):
+    global _release_built
+    if release and not _release_built:
+        build_harness(release=True)          # always rebuilt from the current tree, once per check
+        _release_built = True
     return _run_sharded([HARNESS_REL if release else HARNESS, 'run', family], cases)
 
 def run_model(family, cases):
